@@ -99,6 +99,38 @@ func verifC14Host(p int) string {
 	return "h1"
 }
 
+// What a peer announces in IDENTIFY. Ordinarily every peer is an nsqd of its own (h0, h1). With
+// alias > 0 the two connections announce the SAME node name (broadcast address and http port,
+// which is how /topic/tombstone addresses a producer): two nsqds configured with one broadcast
+// address (alias 1: hostname and tcp port differ), or an nsqd that reconnected while its old
+// connection is still open (alias 2: only the remote address differs). The registry model keeps
+// them apart as two producers - each connection registers, pings and disconnects for itself -
+// but a tombstone names the node, so it hides every registration that carries the name.
+type verifC14Announce struct {
+	bcast, hostname string
+	tcp             int
+}
+
+func (w *verifC14World) announce(p int) verifC14Announce {
+	if p == 1 && w.alias == 1 {
+		return verifC14Announce{"h0", "h1", 4152}
+	}
+	if p == 1 && w.alias == 2 {
+		return verifC14Announce{"h0", "h0", 4150}
+	}
+	return verifC14Announce{verifC14Host(p), verifC14Host(p), 4150}
+}
+
+// the name /topic/tombstone knows peer p by: broadcast_address:http_port (every peer's http port is 4151)
+func (w *verifC14World) nodeName(p int) string { return w.announce(p).bcast + ":4151" }
+
+func verifC14PeerAddr(p int) string {
+	if p == 1 {
+		return "10.0.0.2:5000"
+	}
+	return "10.0.0.1:5000"
+}
+
 // node names usable in /topic/tombstone: the two peers and one that matches nobody
 func verifC14Node(n int) string {
 	switch n {
@@ -253,11 +285,19 @@ type verifC14World struct {
 	wit int
 	// >= 0: operations take only this topic as operand (quick-tier slice of the step harnesses)
 	onlyTopic int
+	// > 0: both peers announce the same node name (see verifC14Announce)
+	alias int
+	// >= 0: the only operation kinds step() may take (nil: all)
+	kinds []int
+	// REGISTER / UNREGISTER operations of step() name a topic only, no channel
+	topicLevel bool
 	// what happened (for the vacuity witnesses)
 	sawEphemeralRemoved bool
 	sawEphemeralDropped bool // an existing empty ephemeral key went with the UNREGISTER of a non-producer
 	sawDisconnect       bool
 	sawFatal            bool
+	sawTombstoneHitTwo  bool // one /topic/tombstone call hid two producers carrying the node name
+	sawDeleteOfKeyless  bool // /topic/delete of a topic without a topic key whose channel keys were still there
 }
 
 func verifC14NewWorld() *verifC14World {
@@ -313,11 +353,9 @@ func (w *verifC14World) send(p int, chunk []byte) (alive bool) {
 // goroutine); the peer sends the V1 magic and then, as its first command, a well-formed IDENTIFY (real handler; the JSON body goes through the engine's encoding/json
 // contract model symbolically and through the real decoder natively).
 func (w *verifC14World) connect(p int) {
-	addr := "10.0.0.1:5000"
-	if p == 1 {
-		addr = "10.0.0.2:5000"
-	}
-	w.connectAs(p, verifC14Host(p), addr)
+	addr := verifC14PeerAddr(p)
+	a := w.announce(p)
+	w.connectWith(p, a, addr)
 	// the client object lives inside Handle: find the peer by its connection (remote address)
 	var info *PeerInfo
 	for _, pr := range w.l.DB.FindProducers("client", "", "") {
@@ -327,8 +365,8 @@ func (w *verifC14World) connect(p int) {
 	}
 	verifrt.Assert(info != nil, "identify-records-the-peer")
 	if info != nil {
-		verifrt.Assert(info.BroadcastAddress == verifC14Host(p) && info.Hostname == verifC14Host(p) &&
-			info.TCPPort == 4150 && info.HTTPPort == 4151 && info.Version == "1.3.0" &&
+		verifrt.Assert(info.BroadcastAddress == a.bcast && info.Hostname == a.hostname &&
+			info.TCPPort == a.tcp && info.HTTPPort == 4151 && info.Version == "1.3.0" &&
 			info.RemoteAddress == addr, "identify-records-the-announced-fields")
 	}
 	w.peers[p].info = info
@@ -337,6 +375,10 @@ func (w *verifC14World) connect(p int) {
 // connectAs: connection slot p is a new connection from remote address addr whose IDENTIFY
 // announces the nsqd `host` (broadcast address and hostname; tcp port 4150, http port 4151)
 func (w *verifC14World) connectAs(p int, host, addr string) {
+	w.connectWith(p, verifC14Announce{host, host, 4150}, addr)
+}
+
+func (w *verifC14World) connectWith(p int, a verifC14Announce, addr string) {
 	conn := &verifC14Conn{addr: addr, in: make(chan []byte, 1), ev: make(chan int, 1)}
 	// the whole accept path: tcpServer.Handle reads the protocol magic, creates the client, runs
 	// IOLoop and closes the connection afterwards
@@ -349,9 +391,9 @@ func (w *verifC14World) connectAs(p int, host, addr string) {
 	verifrt.Assert(first == verifC14Idle, "handle-waits-for-the-protocol-magic")
 	verifrt.Assert(w.send(p, []byte("  V1")), "handle-accepts-the-v1-magic")
 	body, _ := json.Marshal(verifC14Identify{
-		BroadcastAddress: host,
-		Hostname:         host,
-		TCPPort:          4150,
+		BroadcastAddress: a.bcast,
+		Hostname:         a.hostname,
+		TCPPort:          a.tcp,
 		HTTPPort:         4151,
 		Version:          "1.3.0",
 	})
@@ -536,6 +578,13 @@ func (w *verifC14World) deleteTopic(t int) {
 	data, err := w.s.doDeleteTopic(nil, verifC14Req("topic="+verifC14Esc(verifC14Topic(t))), nil)
 	verifrt.Assert(data == nil && err == nil, "delete-topic-ok")
 	m := &w.m
+	// the topic and every channel of it go - whether or not the topic itself still has a key (the
+	// channels of an ephemeral topic outlive its key when the last producer unregisters the topic)
+	for c := 0; c < verifC14NC; c++ {
+		if !m.tkey[t] && m.ckey[t][c] {
+			w.sawDeleteOfKeyless = true
+		}
+	}
 	m.tkey[t] = false
 	for p := 0; p < verifC14NP; p++ {
 		m.rt[t][p] = false
@@ -580,12 +629,18 @@ func (w *verifC14World) tombstone(t, node int) {
 		verifC14Req("topic="+verifC14Esc(verifC14Topic(t))+"&node="+verifC14Node(node)), nil)
 	t1 := verifC14Clock()
 	verifrt.Assert(data == nil && err == nil, "tombstone-ok")
+	// the call names a node: it hides every producer of the topic that announced this name
 	m := &w.m
+	hits := 0
 	for p := 0; p < verifC14NP; p++ {
-		if p == node && m.conn[p] && m.rt[t][p] {
+		if w.nodeName(p) == verifC14Node(node) && m.conn[p] && m.rt[t][p] {
 			m.tomb[t][p] = true
 			m.tombAt[t][p] = verifC14Iv{t0, t1}
+			hits++
 		}
+	}
+	if hits >= 2 {
+		w.sawTombstoneHitTwo = true
 	}
 }
 
@@ -728,8 +783,9 @@ func (w *verifC14World) checkNodes() {
 	foreign := 0
 	for _, n := range nodes {
 		p := -1
+		// (an entry belongs to a connection: remote addresses are unique, announced names need not be)
 		for i := 0; i < verifC14NP; i++ {
-			if n.BroadcastAddress == verifC14Host(i) {
+			if n.RemoteAddress == verifC14PeerAddr(i) {
 				p = i
 			}
 		}
@@ -739,7 +795,7 @@ func (w *verifC14World) checkNodes() {
 		}
 		cnt[p]++
 		info := w.peers[p].info
-		verifrt.Assert(n.RemoteAddress == info.RemoteAddress && n.Hostname == info.Hostname &&
+		verifrt.Assert(n.BroadcastAddress == info.BroadcastAddress && n.Hostname == info.Hostname &&
 			n.TCPPort == info.TCPPort && n.HTTPPort == info.HTTPPort && n.Version == info.Version,
 			"nodes-reports-the-identified-fields")
 		// topics: exactly the topics this peer registered
